@@ -204,6 +204,8 @@ def solve_lp(
         objective_value = float(result.fun)
         if lp_data.sense == "max":
             objective_value = -objective_value
+        # linprog only sees c @ x; the user's objective also has a constant term
+        objective_value += lp_data.c0
 
     # Build informative message for unbounded/infeasible cases
     message = result.message if hasattr(result, "message") else ""
